@@ -74,7 +74,7 @@ def gen(seed, tier):
     for prog, scheds in HAND:
         cases += [prog + " / " + s for s in scheds]
     stats["hand"] = len(cases) - stats["corpus"]
-    nprog, nsched = (300, 10) if tier == "quick" else (1200, 16)
+    nprog, nsched = (300, 10) if tier == "quick" else (1000, 12)
     for _ in range(nprog):
         p = rand_program(r)
         for _ in range(nsched):
@@ -83,5 +83,5 @@ def gen(seed, tier):
     stats["random_cases"] = nprog * nsched
     enum = [(p, 15000) for p in EXHAUSTIVE_QUICK]
     if tier != "quick":
-        enum += [(p, 30000) for p in EXHAUSTIVE_THOROUGH]
+        enum += [(p, 20000) for p in EXHAUSTIVE_THOROUGH]
     return cases, stats, enum
